@@ -208,6 +208,26 @@ def waitChildren (res : Nat → WaitRes) (tracked : List Nat) : List Nat × List
   let p := pollAll res tracked
   (p.1, report p.2)
 
+/-! ## parent side of `uv_spawn` after `fork` (decision level) -/
+
+/-- what the parent's `read(signal_pipe[0])` returns, process.c:954-975 -/
+inductive PipeRead where
+  | eof                 -- the child reached exec: the close-on-exec write end was closed
+  | errno (e : Nat)     -- the child wrote `-e` and `_exit(127)`ed
+  | epipe
+  deriving DecidableEq, Repr
+
+structure SpawnOut where
+  ret : Int             -- return value of `uv_spawn`
+  reapedSync : Bool     -- blocking `waitpid(pid, &status, 0)` done inside uv_spawn (962 / 969)
+  activated : Bool      -- handle queued in `process_handles` and started (1053-1074)
+  deriving DecidableEq, Repr
+
+def spawnParent : PipeRead → SpawnOut
+  | .eof => ⟨0, false, true⟩
+  | .errno e => ⟨-(e : Int), true, decide (-(e : Int) = 0)⟩
+  | .epipe => ⟨-32, true, false⟩
+
 /-! ## a tiny kernel + loop, to state `exit_once` over whole histories -/
 
 inductive KState where
